@@ -24,6 +24,7 @@ type SpecEnv struct {
 	loop        *loopInfo
 	heapParams  map[string]bool // when translating a spec function body: heaps used
 	inSpecFn    string
+	curInst     *specInst
 	err         []string
 }
 
@@ -864,6 +865,8 @@ type specInst struct {
 	params  []types.Type
 	pending bool
 	rec     bool
+	sf      *SpecFunc
+	recDeps map[string]*specInst // recursive spec functions used (transitively) by the body
 }
 
 func (c *Ctx) findSpec(name string, pkg *types.Package) *SpecFunc {
@@ -891,7 +894,7 @@ func (c *Ctx) instSpec(sf *SpecFunc) *specInst {
 		return si
 	}
 	pkg := c.prog.TypesPkgs[sf.Pkg]
-	si := &specInst{name: "sp_" + sanitize(sf.Name), pending: true}
+	si := &specInst{name: "sp_" + sanitize(sf.Name), pending: true, sf: sf, recDeps: map[string]*specInst{}}
 	c.specDone[key] = si
 	var ptypes []types.Type
 	vars := map[string]Val{}
@@ -922,7 +925,7 @@ func (c *Ctx) instSpec(sf *SpecFunc) *specInst {
 		si.pending = false
 		return si
 	}
-	env := &SpecEnv{c: c, vars: vars, st: newEntryState(), pkg: pkg, heapParams: map[string]bool{}, inSpecFn: key}
+	env := &SpecEnv{c: c, vars: vars, st: newEntryState(), pkg: pkg, heapParams: map[string]bool{}, inSpecFn: key, curInst: si}
 	// first pass discovers heaps (recursive calls use a placeholder)
 	body := env.tr(sf.Body)
 	if isInteger(si.ret) && isFloat(body.Ty) || isFloat(si.ret) && isInteger(body.Ty) {
@@ -1038,6 +1041,14 @@ func (e *SpecEnv) trNamedCall(name string, args []Expr) Val {
 			refArgs = append(refArgs, a)
 		}
 	}
+	if e.curInst != nil && e.curInst != si {
+		if si.rec || sf.Opaque {
+			e.curInst.recDeps[si.name] = si
+		}
+		for n, d := range si.recDeps {
+			e.curInst.recDeps[n] = d
+		}
+	}
 	var curHeaps []string
 	for _, k := range si.heaps {
 		h := e.heapForSpec(k, si, refArgs)
@@ -1047,8 +1058,34 @@ func (e *SpecEnv) trNamedCall(name string, args []Expr) Val {
 		ts = append(ts, h)
 		curHeaps = append(curHeaps, h)
 	}
-	if si.rec && e.heapParams == nil && e.fr != nil {
-		e.specFrameAxiom(sf, si, curHeaps)
+	if e.heapParams == nil && e.fr != nil {
+		if si.rec || sf.Opaque {
+			e.specFrameAxiom(sf, si, curHeaps)
+		}
+		byKey := map[string]string{}
+		for i, k := range si.heaps {
+			byKey[k] = curHeaps[i]
+		}
+		var names []string
+		for n := range si.recDeps {
+			names = append(names, n)
+		}
+		sort.Strings(names)
+		for _, n := range names {
+			d := si.recDeps[n]
+			var hs []string
+			ok := true
+			for _, k := range d.heaps {
+				h, found := byKey[k]
+				if !found {
+					ok = false
+				}
+				hs = append(hs, h)
+			}
+			if ok && d != si {
+				e.specFrameAxiom(d.sf, d, hs)
+			}
+		}
 	}
 	if si.rec {
 		fuel := "(FS (FS FZ))"
@@ -1165,7 +1202,7 @@ func (c *Ctx) oldRooted(t string, depth int) bool {
 // (pre-existing objects are unchanged at this point).
 func (e *SpecEnv) heapForSpec(key string, si *specInst, refArgs []string) string {
 	c := e.c
-	if e.heapParams != nil || e.fr == nil || !si.rec {
+	if e.heapParams != nil || e.fr == nil {
 		return e.heapOf(key)
 	}
 	cur := c.heap(e.st, key)
@@ -1178,16 +1215,25 @@ func (e *SpecEnv) heapForSpec(key string, si *specInst, refArgs []string) string
 			return cur
 		}
 	}
+	if strings.HasPrefix(key, "map!") {
+		return cur
+	}
 	for _, a := range refArgs {
-		if !c.oldRooted(a, 0) {
+		if !c.objOld(a, 0) {
 			return cur
 		}
 	}
-	fk := "framept|" + key + "|" + cur
-	if !e.fr.frameDone[fk] {
-		e.fr.frameDone[fk] = true
-		ft := frameFormula(key, cur, entry, "0", "alloc0", nil, strings.HasPrefix(key, "map!"))
-		e.fr.oblige("frame", sanitize(key), nil, ft, "pre-existing objects of sort "+key+" are unchanged at this point (lets specs about the inputs be read in the entry heap)", 0)
+	// every reference argument is entry-time data: read it in the entry heap. If the
+	// current heap is not already known to agree with the entry heap on pre-existing
+	// objects, that agreement is an obligation ("frame") at this point.
+	if c.oldSame[cur] != entry {
+		fk := "framept|" + key + "|" + cur
+		if !e.fr.frameDone[fk] {
+			e.fr.frameDone[fk] = true
+			ft := frameFormula(key, cur, entry, "0", "alloc0", nil, false)
+			e.fr.oblige("frame", sanitize(key), nil, ft, "pre-existing objects of sort "+key+" are unchanged at this point (lets specs about the inputs be read in the entry heap)", 0)
+		}
+		c.oldSame[cur] = entry
 	}
 	return entry
 }
@@ -1371,9 +1417,13 @@ func (e *SpecEnv) specFrameAxiom(sf *SpecFunc, si *specInst, cur []string) {
 			fr.oblige("frame", sanitize(k), nil, ft, "pre-existing objects of sort "+k+" are unchanged at this point (lets specs about the inputs be read in the entry heap)", 0)
 		}
 	}
-	lhs := "(" + si.name + " fu " + strings.Join(append(append([]string{}, names...), cur...), " ") + ")"
-	rhs := "(" + si.name + " fu " + strings.Join(append(append([]string{}, names...), entry...), " ") + ")"
-	c.declOnce("fuel", "(declare-datatypes ((Fuel 0)) (((FZ) (FS (fpred Fuel)))))")
-	fr.assumeR(fmt.Sprintf("(forall ((fu Fuel) %s) (! (=> %s (= %s %s)) :pattern (%s)))", strings.Join(binders, " "), and(guard...), lhs, rhs, lhs))
+	fuelArg, fuelBinder := "", ""
+	if si.rec {
+		fuelArg, fuelBinder = "fu ", "(fu Fuel) "
+		c.declOnce("fuel", "(declare-datatypes ((Fuel 0)) (((FZ) (FS (fpred Fuel)))))")
+	}
+	lhs := "(" + si.name + " " + fuelArg + strings.Join(append(append([]string{}, names...), cur...), " ") + ")"
+	rhs := "(" + si.name + " " + fuelArg + strings.Join(append(append([]string{}, names...), entry...), " ") + ")"
+	fr.assumeR(fmt.Sprintf("(forall (%s%s) (! (=> %s (= %s %s)) :pattern (%s) :pattern (%s)))", fuelBinder, strings.Join(binders, " "), and(guard...), lhs, rhs, lhs, rhs))
 	c.assumed["meta: recursive spec functions read only cells reachable from their arguments (frame axiom for "+sf.Name+")"] = true
 }
